@@ -13,11 +13,19 @@ import (
 	"encoding/json"
 	"fmt"
 	"os"
+	"runtime/pprof"
+	"strings"
+	"sync"
+	"time"
 
+	"github.com/bartossh/Computantis/src/cache"
+	"github.com/bartossh/Computantis/src/dataprovider"
+	"github.com/bartossh/Computantis/src/notaryserver"
 	pb "github.com/bartossh/Computantis/src/protobufcompiled"
 	"github.com/bartossh/Computantis/src/spice"
 	"github.com/bartossh/Computantis/src/transaction"
 	"github.com/bartossh/Computantis/src/transformers"
+	"github.com/bartossh/Computantis/src/wallet"
 )
 
 type bOp struct {
@@ -29,12 +37,78 @@ type bOp struct {
 	Rcv  string `json:"rcv,omitempty"`
 	Amt  uint64 `json:"amt,omitempty"`
 	Data bool   `json:"data,omitempty"`
-	K    int    `json:"k,omitempty"` // confirm / reject: index of the proposal in this behaviour
+	K    int    `json:"k,omitempty"`    // confirm / reject: index of the proposal in this behaviour
+	Hold bool   `json:"hold,omitempty"` // bal: the save goroutine of this request is held back until the next "land"
 }
 
 type bBehaviour struct {
 	ID  string `json:"id"`
 	Ops []bOp  `json:"ops"`
+}
+
+// heldCache is the real Hippocampus with a gate in front of SaveBalance: the notary saves a computed balance from a
+// goroutine it starts after replying, and the driver decides when that goroutine lands (observation O-B2).
+type heldCache struct {
+	*cache.Hippocampus
+	mu      sync.Mutex
+	hold    bool
+	waiting []chan struct{}
+}
+
+func (h *heldCache) SaveBalance(a string, s spice.Melange) error {
+	h.mu.Lock()
+	if h.hold {
+		ch := make(chan struct{})
+		h.waiting = append(h.waiting, ch)
+		h.mu.Unlock()
+		<-ch
+	} else {
+		h.mu.Unlock()
+	}
+	return h.Hippocampus.SaveBalance(a, s)
+}
+
+func (h *heldCache) setHold(v bool) {
+	h.mu.Lock()
+	h.hold = v
+	h.mu.Unlock()
+}
+
+// release lets every held save land and waits until the cache has them.
+func (h *heldCache) release() int {
+	h.mu.Lock()
+	ws := h.waiting
+	h.waiting = nil
+	h.mu.Unlock()
+	for _, ch := range ws {
+		close(ch)
+	}
+	return len(ws)
+}
+
+func (h *heldCache) held() int {
+	h.mu.Lock()
+	defer h.mu.Unlock()
+	return len(h.waiting)
+}
+
+// settleB waits until no goroutine of the notary server is left except the save goroutines parked at the gate.
+func settleB() {
+	for i := 0; i < 2000; i++ {
+		var buf bytes.Buffer
+		_ = pprof.Lookup("goroutine").WriteTo(&buf, 2)
+		busy := false
+		for _, g := range strings.Split(buf.String(), "\n\n") {
+			if strings.Contains(g, "Computantis/src/notaryserver.") && !strings.Contains(g, "heldCache") {
+				busy = true
+				break
+			}
+		}
+		if !busy {
+			return
+		}
+		time.Sleep(200 * time.Microsecond)
+	}
 }
 
 func (w *nWorld) ledgerBalance(addr string) int64 {
@@ -57,11 +131,24 @@ func runBalanceBehaviour(b *bBehaviour, enc *json.Encoder) error {
 	}
 	defer w.close()
 	ctx := context.Background()
+	hc := &heldCache{Hippocampus: w.hc}
+	dctx, dcancel := context.WithCancel(ctx)
+	defer dcancel()
+	w.srv = notaryserver.VerifNew(nil, dataprovider.New(dctx, dataprovider.Config{Longevity: 1}), teleStub{}, nopLogger{}, wallet.NewVerifier(),
+		w.ab, hc, w.fl, w.jug, "url", 4096)
+	defer hc.release()
 	_ = enc.Encode(map[string]any{"e": "Reset", "id": b.ID})
 	var made []*transaction.Transaction
 	for _, op := range b.Ops {
 		switch op.Op {
+		case "land":
+			n := hc.release()
+			hc.setHold(false)
+			settleB()
+			_ = enc.Encode(map[string]any{"e": "Land", "n": n})
 		case "bal":
+			hc.setHold(op.Hold)
+			before := hc.held()
 			ref := w.ledgerBalance(op.A)
 			var sp *pb.Spice
 			err := safely(func() error {
@@ -69,12 +156,21 @@ func runBalanceBehaviour(b *bBehaviour, enc *json.Encoder) error {
 				sp, e = w.srv.Balance(ctx, w.signedHash(op.A, []byte(w.wl[op.D].Address()), op.By))
 				return e
 			})
-			w.settle()
+			if op.Hold {
+				// the save goroutine, if one was started, has to reach the gate before the next request
+				for i := 0; i < 200 && err == nil && hc.held() == before; i++ {
+					time.Sleep(time.Millisecond)
+				}
+			} else {
+				settleB()
+			}
+			hc.setHold(false)
 			val := int64(-1)
 			if err == nil && sp != nil && sp.SupplementaryCurrency == 0 && sp.Currency <= 2000000000 {
 				val = int64(sp.Currency)
 			}
-			_ = enc.Encode(map[string]any{"e": "Bal", "a": op.A, "auth": op.By == op.A && op.D == op.A, "res": notaryRes(err), "val": val, "ref": ref})
+			_ = enc.Encode(map[string]any{"e": "Bal", "a": op.A, "auth": op.By == op.A && op.D == op.A, "res": notaryRes(err), "val": val, "ref": ref,
+				"held": hc.held() > before})
 		case "propose":
 			var data []byte
 			if op.Data {
@@ -87,7 +183,7 @@ func runBalanceBehaviour(b *bBehaviour, enc *json.Encoder) error {
 			made = append(made, &t)
 			p, _ := transformers.TrxToProtoTrx(t)
 			err = safely(func() error { _, e := w.srv.Propose(ctx, p); return e })
-			w.settle()
+			settleB()
 			w.ab.VerifDrainTruncateSignal()
 			_ = enc.Encode(map[string]any{"e": "Seal", "kind": "propose", "i": op.Iss, "r": op.Rcv, "k": len(made) - 1, "res": notaryRes(err),
 				"sealed": err == nil && w.isSealed(&t)})
@@ -107,7 +203,7 @@ func runBalanceBehaviour(b *bBehaviour, enc *json.Encoder) error {
 				h := t.Hash
 				err = safely(func() error { _, e := w.srv.Reject(ctx, w.signedHash(rcv, h[:], rcv)); return e })
 			}
-			w.settle()
+			settleB()
 			w.ab.VerifDrainTruncateSignal()
 			_ = enc.Encode(map[string]any{"e": "Seal", "kind": op.Op, "i": iss, "r": rcv, "k": op.K, "res": notaryRes(err),
 				"sealed": err == nil && !was && w.isSealed(&t)})
